@@ -28,6 +28,24 @@ def run(ctx):
             monitor_failures(ctx, s['monitor_failures'], findings, 'h_rustargs monitor', lambda fl: ('monitor-' + fl['kind'], ['rustc command line(s) as hex lists; the real rust::parse_arguments through hook H7 (harness/src/bin/h_rustargs.rs one <args>)', fl['detail'][:600]], '\n'.join(fl['ops'])))
             ctx.rules.append('h_rustargs: cargo-like rustc command lines (every table flag in both spellings, shuffled, value alphabets per flag with ordinary values five times in six, a non-UTF-8 byte one time in forty, truncated lines, '
                              'static libraries and <target>.json probes on a real directory) through the real parser vs RArgsM.parseArguments; non-trivial = distinct accepted (cacheable) command lines')
+    if cargo_harness(ctx, ['h_rustkey']):
+        w = ctx.work; e = env_offline(); e['VERIF_SEED'] = str(ctx.seed)
+        n = 120 if ctx.quick() else 3000
+        rc, out, dt = sh([harness_bin('h_rustkey'), 'gen', str(n), f'{w}/rustkey.req', f'{w}/rustkey.keys', f'{w}/rustkey.json'], env=e, timeout=7200)
+        if rc != 0: ctx.broken.append('h_rustkey crashed: ' + out[-300:])
+        else:
+            s = json.load(open(f'{w}/rustkey.json'))
+            with open(f'{w}/rustkey.req') as f, open(f'{w}/rustkey.pre', 'w') as g: subprocess.run([MODELD, 'rustkey'], stdin=f, stdout=g, timeout=7200)
+            rc, out, dt = sh([harness_bin('h_rustkey'), 'cmp', f'{w}/rustkey.keys', f'{w}/rustkey.pre'])
+            m = re.search(r'mismatches: (\d+)', out); d = re.search(r'distinct_keys: (\d+)', out); nm = int(m.group(1)) if m else -1
+            ctx.cov.setdefault('correspondence', {})['rustkey'] = {'model': 'rustkey', 'mismatches': nm, 'keys_compared': sum(1 for _ in open(f'{w}/rustkey.keys'))}
+            if nm != 0: ctx.broken.append('correspondence rustkey: hex(blake3(model pre-image)) differs from the real Rust key on %d requests; first: %s' % (nm, out[:500].replace('\n', ' ')))
+            ctx.evaluations += sum(1 for _ in open(f'{w}/rustkey.keys')); ctx.distinct_nontrivial += int(d.group(1)) if d else 0; ctx.samples += s['samples'][:1]
+            ctx.cov['rustkey'] = {k: v for k, v in s.items() if k not in ('monitor_failures', 'samples')}
+            if s['cases'] and not s['keyed']: ctx.broken.append('h_rustkey: no generated command line was keyed (the tie is vacuous)')
+            monitor_failures(ctx, s['monitor_failures'], findings, 'h_rustkey metamorphic monitor', lambda fl: ('monitor-' + fl['kind'], ['rustc command line and environment (pair separated by ||); real RustHasher::generate_hash_key with a real rustc (harness/src/bin/h_rustkey.rs)', fl['detail'][:700]], fl['detail']))
+            ctx.rules.append('h_rustkey: a crate on disk (module, include_str!, option_env! of a plain and a CARGO_ variable, two extern rlibs built with the real rustc), shuffled cargo-like command lines and environments; byte-exact: BLAKE3 of the '
+                             'model pre-image (model parser + environment filter + encRust, from independently computed digests / dep-info / rustc -vV / sysroot libraries) = the real key; metamorphic pairs (reordering, source edit, env-dep, irrelevant variables, a hashed argument, a CARGO_ variable)')
     if cargo_harness(ctx, ['h_framing']):
         w = ctx.work; e = env_offline(); e['VERIF_SEED'] = str(ctx.seed)
         n = 3000 if ctx.quick() else 200000
@@ -52,7 +70,7 @@ def run(ctx):
         ctx.samples.append(line); monitor_failures(ctx, fails, findings, 'extern alias witness replay', rp)
     ctx.rules.append('framing: random OsString / String / PathBuf values through a write-only Hasher; system: histories over a crate with a module, include_str!, env! / option_env! of a plain, a CARGO_PKG_* and a CARGO_REGISTRIES_* variable (set / changed / unset, scripted first), a cfg feature and an extern rlib — '
                      'edit of each input (must miss), reorder --cfg and --extern/-L (must hit), repeat (must hit); every out-dir compared file by file with a direct rustc run')
-    ctx.assumptions += ["rustc's dep-info lists every source file and env! variable (assumed complete)", 'the component order of the pre-image is hand-read from rust.rs; the byte-exact ties cover the framing and the parsed argument list, the end-to-end monitor covers sensitivity']
+    ctx.assumptions += ["rustc's dep-info lists every source file and env! variable (assumed complete)", 'the whole Rust key is tied byte-exactly (h_rustkey) for crates without static libraries and json targets; those two digests are covered by the system monitor only']
     ctx.notes.append('not modelled: the outputs computation of the rust hasher (rlib/rmeta/dep-info fix-ups from `rustc --print file-names`); partial')
 
 def replay(ctx, path):
